@@ -26,6 +26,7 @@ import (
 	"encoding/json"
 	"fmt"
 	"os"
+	"slices"
 	"sort"
 	"strconv"
 	"strings"
@@ -431,9 +432,9 @@ func classify(exp []extsem.Event, got []genharness.Event) (class, shape string) 
 		}
 	}
 	switch {
-	case k >= len(got):
+	case len(got) < len(exp):
 		return "missing-event", shape
-	case k >= len(exp):
+	case len(got) > len(exp):
 		return "extra-event", shape
 	case exp[k].Type != got[k].Type:
 		var a, b []string
@@ -447,12 +448,6 @@ func classify(exp []extsem.Event, got []genharness.Event) (class, shape string) 
 		sort.Strings(b)
 		if strings.Join(a, " ") == strings.Join(b, " ") {
 			return "order", shape
-		}
-		if len(exp) > len(got) {
-			return "missing-event", shape
-		}
-		if len(exp) < len(got) {
-			return "extra-event", shape
 		}
 		return "type", shape
 	case exp[k].Off != got[k].Off:
@@ -470,7 +465,7 @@ func run(c *core.Ctx) {
 	c.Assume("genharness.StdDriver reports listener calls faithfully (NodeType.String(), offset, endoffset)")
 
 	if os.Getenv("VERIF_C02_DEBUG") == "picks" {
-		runExt(c, &runner{c: c}, 190, 6, func() bool { return false })
+		runExt(c, &runner{c: c}, 260, 6, func() bool { return false })
 		return
 	}
 	if os.Getenv("VERIF_C02_DEBUG") == "shapes" {
@@ -479,7 +474,7 @@ func run(c *core.Ctx) {
 	}
 
 	r := &runner{c: c, grammars: map[*prepared]bool{}, nontrivial: map[*prepared]bool{}, sampled: map[*prepared]bool{}, batchLimit: 24}
-	cfgTarget, extTarget, W := 40, 190, 6
+	cfgTarget, extTarget, W := 50, 260, 6
 	if !c.Quick() {
 		cfgTarget, extTarget = 300, 2700
 	}
@@ -609,6 +604,21 @@ func runExt(c *core.Ctx, r *runner, target, W int, feedCFG func() bool) {
 			byClass[f] = append(byClass[f], i)
 		}
 	}
+	// classes where range arithmetic is most delicate go first, so that a run that is cut short by
+	// the budget on a busy machine has seen them
+	first := []string{"fixWhitespace-matters:rule-level", "inner-part-ends-in-empty-symbol", "trailing-empty-symbol:annotated", "leading-empty-symbol", "order:nested-arrow-left-of-annotated-Y", "arrow:nested/d2", "arrow:list+", "arrow:empty-nested", "arrow:nested/nullable"}
+	var ordered []string
+	for _, f := range first {
+		if _, ok := byClass[f]; ok {
+			ordered = append(ordered, f)
+		}
+	}
+	for _, f := range classes {
+		if !slices.Contains(first, f) {
+			ordered = append(ordered, f)
+		}
+	}
+	classes = ordered
 	c.Set("shape_classes", classes)
 	outOfScope := map[string]int{}
 	rejectedByCompiler := map[string]int{}
